@@ -2335,3 +2335,141 @@ func TestVerifC17F17f(t *testing.T) {
 		t.Fatalf("F17f: streamed /v1/chat/completions ends with finish_reason %q, the non-streamed reply for the same runner output says %q", s, o)
 	}
 }
+
+// ---------------------------------------------------------------- waitForStream / streamResponse on progress channels
+
+// TestVerifC17Progress: the non-streamed reply of the progress endpoints (pull / push / create): the REAL
+// waitForStream and streamResponse over scripted channels.  L1: waitForStream's status + body vs the model; L2 (model-free):
+// the stream carries every item as one line, and the non-streamed reply is the first terminal line of that stream.
+func TestVerifC17Progress(t *testing.T) {
+	gin.SetMode(gin.TestMode)
+	out := zzverif.NewOut()
+	defer out.Close()
+	root := zzverif.NewRng(zzverif.Seed())
+	n := zzverif.EnvInt("VERIF_N", 400)
+	serve := func(items []any, stream bool) (int, string) {
+		w := httptest.NewRecorder()
+		c, _ := gin.CreateTestContext(w)
+		c.Request = httptest.NewRequest(http.MethodPost, "/api/pull", nil)
+		ch := make(chan any, len(items))
+		for _, it := range items {
+			ch <- it
+		}
+		close(ch)
+		if stream {
+			streamResponse(c, ch)
+		} else {
+			waitForStream(c, ch)
+		}
+		return w.Code, w.Body.String()
+	}
+	statuses := []string{"pulling manifest", "downloading", "verifying sha256 digest", "success", "", "Success"}
+	for i := 0; i < n; i++ {
+		r := root.Fork()
+		k := r.Range(0, 6)
+		var items []any
+		var op strings.Builder
+		fmt.Fprintf(&op, "progress %d", k)
+		for j := 0; j < k; j++ {
+			switch r.Intn(10) {
+			case 0, 1, 2, 3, 4:
+				st := zzverif.Pick(r, statuses)
+				if j == k-1 && r.Bool() {
+					st = "success"
+				}
+				items = append(items, api.ProgressResponse{Status: st, Digest: "sha256:abc", Total: 10, Completed: int64(j)})
+				fmt.Fprintf(&op, " p %s", zzverif.Hex([]byte(st)))
+			case 5:
+				items = append(items, gin.H{"error": "pull failed: boom"})
+				fmt.Fprintf(&op, " e %s ?", zzverif.Hex([]byte("pull failed: boom")))
+			case 6:
+				st := zzverif.Pick(r, []int{400, 401, 404, 500})
+				items = append(items, gin.H{"error": "bad request: x", "status": st})
+				fmt.Fprintf(&op, " e %s %d", zzverif.Hex([]byte("bad request: x")), st)
+			case 7:
+				items = append(items, gin.H{"error": 42, "status": 418})
+				op.WriteString(" e ? 418")
+			case 8:
+				items = append(items, gin.H{"error": "m", "status": "teapot"})
+				fmt.Fprintf(&op, " e %s ?", zzverif.Hex([]byte("m")))
+			default:
+				items = append(items, "not a progress value")
+				op.WriteString(" o")
+			}
+		}
+		code, body := serve(items, false)
+		obs := fmt.Sprintf("%d ?%s", code, body)
+		var pr api.ProgressResponse
+		var eb struct {
+			Error *string `json:"error"`
+		}
+		switch {
+		case code == 200 && vc17Strict([]byte(body), &pr) == nil && pr.Status == "success":
+			obs = "200 success"
+		case code != 200 && json.Unmarshal([]byte(body), &eb) == nil && eb.Error != nil:
+			obs = fmt.Sprintf("%d e:%s", code, zzverif.Hex([]byte(*eb.Error)))
+		}
+		out.Case(op.String(), obs)
+		out.Count("cases")
+		out.Count("progress_cases")
+		out.Count("progress_once_" + strings.SplitN(obs, " ", 2)[0])
+		// the stream: one line per item, status 200
+		scode, sbody := serve(items, true)
+		var lines []string
+		for _, l := range strings.Split(sbody, "\n") {
+			if l != "" {
+				lines = append(lines, l)
+			}
+		}
+		caseLine := op.String()
+		if scode != 200 || len(lines) != len(items) {
+			out.L2("progress-stream", caseLine, fmt.Sprintf("status=%d lines=%d items=%d", scode, len(lines), len(items)))
+			continue
+		}
+		// the non-streamed reply is the first terminal line of the stream (derived from the stream's own bytes)
+		want := "500 e:" + zzverif.Hex([]byte("unexpected end of progress response"))
+		for _, l := range lines {
+			var probe map[string]json.RawMessage
+			if json.Unmarshal([]byte(l), &probe) != nil {
+				want = "500 e:" + zzverif.Hex([]byte("unexpected progress response"))
+				out.Count("progress_first_terminal_other")
+				break
+			}
+			var st string
+			if s, ok := probe["status"]; ok && json.Unmarshal(s, &st) == nil && probe["error"] == nil {
+				if _, isProgress := probe["digest"]; isProgress || len(probe) == 1 {
+					if st == "success" {
+						want = "200 success"
+						out.Count("progress_first_terminal_success")
+						break
+					}
+					continue
+				}
+			}
+			// an error item
+			status := 500
+			if s, ok := probe["status"]; ok {
+				var v int
+				if json.Unmarshal(s, &v) == nil {
+					status = v
+				}
+			}
+			msg := "unexpected error format in progress response"
+			if e, ok := probe["error"]; ok {
+				var v string
+				if json.Unmarshal(e, &v) == nil {
+					msg = v
+				}
+			}
+			want = fmt.Sprintf("%d e:%s", status, zzverif.Hex([]byte(msg)))
+			out.Count("progress_first_terminal_error")
+			break
+		}
+		if want == "500 e:"+zzverif.Hex([]byte("unexpected end of progress response")) {
+			out.Count("progress_no_terminal")
+		}
+		if obs != want {
+			out.L2("progress-once-first-terminal", caseLine, fmt.Sprintf("non-streamed=%s first terminal line of the stream=%s stream=%q", obs, want, lines))
+		}
+	}
+}
